@@ -123,13 +123,14 @@ func extractFirstBytesRecursive(re *syntax.Regexp, result *FirstByteSet, depth i
 		}
 		return true
 
-	case syntax.OpBeginLine, syntax.OpBeginText:
-		// Anchors don't consume bytes, skip to next
-		return true
-
-	case syntax.OpEndLine, syntax.OpEndText:
-		// End anchors: pattern could match at end, need to check next part
-		return true
+	case syntax.OpBeginLine, syntax.OpBeginText, syntax.OpEndLine, syntax.OpEndText:
+		// An assertion consumes nothing, so whatever follows it decides the
+		// first byte. Leading ^ in a concatenation is skipped by OpConcat below;
+		// anywhere else (a bare branch of an alternation such as (?:^|a)x or
+		// (?:a|$), under a repetition, ...) the set would silently miss the
+		// bytes of the continuation, so report "can match empty" like * and ?.
+		result.complete = false
+		return false
 
 	case syntax.OpCapture:
 		// Capture group: recurse into content
